@@ -236,10 +236,10 @@ CHECKS["C15"] = {
 }
 
 CHECKS["C13"] = {
-    "parts": BASE,
+    "parts": [{"variant": "base"}, {"variant": "exact"}],
     "level": "exploration",
-    "technique": "runtime monitor: generated SQLite schema statements are executed on the real engine; the engine's catalogue (pragma_table_xinfo, index_list, index_xinfo, foreign_key_list, sqlite_master) and behavioural probes (valid row accepted, NULL / CHECK-violating row rejected, defaults read back, typeof() of stored probes) are compared with the declared catalogue after every statement of a history",
-    "rule": "(a) every SQLite-supported column type (34 parameterisations) x every ordered pair of column specifications from {NOT NULL, NULL, DEFAULT int/text/NULL/CURRENT_TIMESTAMP, UNIQUE, PRIMARY KEY, CHECK, COMMENT} plus the AUTOINCREMENT forms, as single-column tables; (b) random histories: 1-2 tables of 1-6 columns with random specification orders, table-level (composite) primary keys and named UNIQUE constraints with column directions (compared with the automatic indexes' directions), foreign keys with every action pair, table CHECKs, generated columns, followed by up to 5 of ADD COLUMN / RENAME COLUMN / DROP COLUMN / RENAME TO / CREATE [UNIQUE] INDEX [IF NOT EXISTS] with ASC/DESC, prefix lengths (ignored by SQLite), odd names and partial predicates built by one to three and_where / cond_where calls / DROP INDEX / DROP TABLE [IF EXISTS]; non-trivial = every executed history; distinct = distinct statement texts",
+    "technique": "runtime monitor: generated SQLite schema statements are executed on the real engine; the engine's catalogue (pragma_table_xinfo, index_list, index_xinfo, foreign_key_list, sqlite_master) and behavioural probes (valid row accepted, NULL / CHECK-violating row rejected, defaults read back, typeof() of stored probes) are compared with the declared catalogue after every statement of a history; run on the default build and on a build with option-sqlite-exact-column-type (every integer type must then be declared exactly `integer`)",
+    "rule": "(a) every SQLite-supported column type (34 parameterisations) x every ordered pair of column specifications from {NOT NULL, NULL, DEFAULT int/text/NULL/CURRENT_TIMESTAMP, UNIQUE, PRIMARY KEY, CHECK, COMMENT} plus the AUTOINCREMENT forms, as single-column tables; (b) random histories: 1-2 tables of 1-6 columns with random specification orders, table-level (composite) primary keys and named UNIQUE constraints with column directions (compared with the automatic indexes' directions), foreign keys with every action pair, table CHECKs, generated columns, followed by up to 5 of ADD COLUMN / RENAME COLUMN / DROP COLUMN / RENAME TO / CREATE [UNIQUE] INDEX [IF NOT EXISTS] with ASC/DESC, prefix lengths (ignored by SQLite), odd names and partial predicates built by one to three and_where / cond_where calls / DROP INDEX / DROP TABLE [IF EXISTS]; schema-qualified (`main`) ALTER/RENAME/DROP targets, DROP TABLE IF EXISTS on an absent table, composite foreign keys built through from()/to() and from_col()/to_col(); both builds are summed; non-trivial = every executed history; distinct = distinct statement texts",
     "assumptions": [
         "intended affinity per abstract type is the table in ddl.rs (integer family -> INTEGER, float/double/decimal/money -> REAL, char/string/text/date-time/json/uuid/enum -> TEXT, binary/varbinary/blob -> BLOB, boolean -> NUMERIC), checked against SQLite's five type-name rules and, for unconstrained single-column tables, by typeof() of stored probes (INTEGER and NUMERIC store alike)",
         "SQLite semantics encoded in the oracle: an `integer` PRIMARY KEY column is a rowid alias (NULL/DEFAULT replaced by a fresh rowid); one automatic index per distinct UNIQUE column list and none for a list equal to the primary key; ADD COLUMN cannot add PRIMARY KEY/UNIQUE columns and needs a non-NULL literal default for NOT NULL",
